@@ -1,223 +1,90 @@
 (* Session/SyntaxConcat.v — C07 premise (b) on the syntax area's parser model
-   (Syntax/Parser.v: statement = expression | let | procedure call; parse_loop):
-   programs that are sequences of canonically printed well-formed statements
-   separated by newlines parse to the sequence of their trees, hence joining two
-   such programs with a newline concatenates the statement lists; and by the
-   soundness theorem of the syntax area every single-line input of the fragment
-   that parses IS such a print, so the concatenation property holds for all
-   single-line inputs of the fragment. *)
+   (Syntax/Parser.v: statement-level parser for expressions, let, procedure calls and
+   all definition forms; parse_loop):
+   programs that are sequences of canonically printed well-formed items (statements and
+   definitions) separated by `;`/newlines round-trip (the syntax area's
+   roundtrip_program), hence joining two such programs with a newline concatenates the
+   statement lists; and by the soundness theorem of the syntax area every single-line
+   simple input that parses IS such a print, so the concatenation property holds for all
+   of those inputs. *)
 From Coq Require Import List NArith Bool Arith Lia.
-From NV Require Import Syntax.Token Syntax.Ast Syntax.Parser Syntax.Grammar Syntax.ParserProofs
-     Syntax.FuelProofs Syntax.SoundProofs.
+From NV Require Import Syntax.Token Syntax.Ast Syntax.StmtAst Syntax.Parser Syntax.Grammar Syntax.StmtGrammar
+     Syntax.ParserProofs Syntax.StmtProofs Syntax.SoundProofs.
 Import ListNotations.
 
-(* a token that ends a statement *)
-Definition ends_stmt (rest : list token) : bool :=
-  match rest with
-  | [] => true
-  | TNewline :: _ | TSemicolon :: _ => true
-  | _ => false
-  end.
+(* locality of the single-statement parser on printed items: whatever follows, as long as it
+   starts like the end of a statement (and is not a where/and continuation), is left untouched *)
+Theorem statement_ext : forall i rest,
+    wf_item i = true -> srest rest = true ->
+    statement (pr_item i ++ rest) = Ok (desugar_item i) rest.
+Proof. exact item_ok. Qed.
 
-Lemma follow_ends_stmt : forall k t rest, ends_stmt rest = true -> follow k t rest = true.
+Lemma pr_more_app : forall a b, pr_more (a ++ b) = pr_more a ++ pr_more b.
 Proof.
-  intros k t [|tok r] H; [reflexivity|].
-  destruct tok; try discriminate; unfold follow, blocks; cbn; now rewrite !andb_false_r.
+  induction a as [|[s i] r IH]; intro b; [reflexivity|].
+  cbn [app pr_more]. rewrite IH. now rewrite <- !app_assoc.
 Qed.
 
-Lemma statement_ext : forall s rest,
-    wf_stmt s = true -> ends_stmt rest = true ->
-    statement (pr_stmt s ++ rest) = Ok (desugar_stmt s) rest
-    /\ starts_other_statement (pr_stmt s ++ rest) = false.
+Lemma repeat_shift : forall (x : token) a l, repeat x a ++ x :: l = x :: repeat x a ++ l.
+Proof. induction a as [|a IH]; intro l; [reflexivity|]. cbn. now rewrite IH. Qed.
+
+Definition trees (i : sitem) (more : list ((bool * nat) * sitem)) : list stmt :=
+  desugar_item i :: map (fun p => desugar_item (snd p)) more.
+
+Lemma pr_prog_join : forall lead1 i1 more1 trail1 lead2 i2 more2 trail2,
+    pr_prog lead1 i1 more1 trail1 ++ TNewline :: pr_prog lead2 i2 more2 trail2
+    = pr_prog lead1 i1 (more1 ++ ((false, trail1 + lead2), i2) :: more2) trail2.
 Proof.
-  intros [t|n t|k args] rest W E; simpl in W.
-  - destruct (pr_first t W) as (tok & r & Ep & Fi & _). cbn [pr_stmt desugar_stmt].
-    split.
-    + rewrite Ep. cbn [app]. rewrite statement_first by exact Fi. unfold expression.
-      change (expression_d (S (length (tok :: r ++ rest)))) with (L (length (tok :: r ++ rest)) 0).
-      change (tok :: r ++ rest) with ((tok :: r) ++ rest). rewrite <- Ep.
-      rewrite (expression_ok t rest W (follow_ends_stmt 0 t rest E)); [reflexivity|].
-      rewrite app_length. lia.
-    + rewrite Ep. destruct tok; try discriminate; reflexivity.
-  - destruct (pr_first t W) as (tok & r & Ep & Fi & _). cbn [pr_stmt desugar_stmt app].
-    split; [|reflexivity].
-    cbn [statement parse_variable]. rewrite Ep. cbn [app]. rewrite skip_first by exact Fi. unfold expression.
-    change (expression_d (S (length (tok :: r ++ rest)))) with (L (length (tok :: r ++ rest)) 0).
-    change (tok :: r ++ rest) with ((tok :: r) ++ rest). rewrite <- Ep.
-    rewrite (expression_ok t rest W (follow_ends_stmt 0 t rest E)); [reflexivity|].
-    rewrite app_length. lia.
-  - apply andb_prop in W. destruct W as [Hk Wa]. cbn [pr_stmt desugar_stmt app].
-    split; [|destruct k; try discriminate; reflexivity].
-    assert (St : statement (TKw k :: TLParen :: (pr_args args ++ [TRParen]) ++ rest)
-                 = parse_procedure k (TLParen :: (pr_args args ++ [TRParen]) ++ rest))
-      by (destruct k; try discriminate; reflexivity).
-    rewrite St. cbn [parse_procedure]. rewrite <- app_assoc. cbn [app].
-    rewrite arguments_ok; [reflexivity|].
-    intros a Ha. assert (Waa : wf a = true) by (eapply forallb_forall in Wa; eauto).
-    split; [exact Waa|]. intros rest' F.
-    apply expression_ok; auto.
-    clear - Ha. rewrite app_length. simpl.
-    induction args as [|b r IH]; [contradiction|].
-    rewrite pr_args_cons, app_length. destruct Ha as [->|Ha]; [lia|].
-    specialize (IH Ha). destruct r as [|c r']; [contradiction|].
-    rewrite pr_args_cons in IH. cbn [tailp]. cbn [length]. rewrite !app_length in *. simpl in *. lia.
-Qed.
-
-(* ---- programs: canonically printed statements separated by one newline ---- *)
-Fixpoint pr_prog (l : list sst) : list token :=
-  match l with
-  | [] => []
-  | [s] => pr_stmt s
-  | s :: r => pr_stmt s ++ TNewline :: pr_prog r
-  end.
-
-Lemma pr_prog_cons : forall s r, r <> [] -> pr_prog (s :: r) = pr_stmt s ++ TNewline :: pr_prog r.
-Proof. intros s [|x r] H; [now contradiction H | reflexivity]. Qed.
-
-Lemma stmt_nonempty : forall ts st rest, statement ts = Ok st rest -> ts <> [].
-Proof.
-  intros ts st rest H E. subst. destruct (statement_good []) as [_ G].
-  specialize (G st rest H). cbn in G. lia.
-Qed.
-
-Lemma pr_stmt_first : forall s, wf_stmt s = true ->
-    exists tok r, pr_stmt s = tok :: r /\ forall x, skip_empty_lines (tok :: x) = tok :: x.
-Proof.
-  intros [t|n t|k args] W; simpl in W.
-  - destruct (pr_first t W) as (tok & r & E & Fi & _). exists tok, r. split; [exact E|].
-    intro x. now apply skip_first.
-  - eexists; eexists; split; [reflexivity | intro x; reflexivity].
-  - eexists; eexists; split; [reflexivity | intro x; reflexivity].
-Qed.
-
-Lemma parse_loop_prog : forall l n acc,
-    Forall (fun s => wf_stmt s = true) l -> length l < n ->
-    parse_loop n acc (pr_prog l) = Ok (acc ++ map desugar_stmt l) [].
-Proof.
-  induction l as [|s r IH]; intros n acc W Hn.
-  - destruct n; [cbn in Hn; lia|]. cbn. now rewrite app_nil_r.
-  - destruct n as [|n]; [cbn in Hn; lia|]. inversion W as [|? ? Ws Wr]; subst.
-    destruct r as [|s2 r'].
-    + (* last statement *)
-      cbn [pr_prog]. destruct (statement_ext s [] Ws eq_refl) as [St So]. rewrite app_nil_r in St, So.
-      destruct (pr_stmt s) as [|tok ts] eqn:Ep; [exfalso; eapply stmt_nonempty; eauto|].
-      cbn [parse_loop]. rewrite So, St. reflexivity.
-    + rewrite pr_prog_cons by discriminate.
-      destruct (statement_ext s (TNewline :: pr_prog (s2 :: r')) Ws eq_refl) as [St So].
-      destruct (pr_stmt s ++ TNewline :: pr_prog (s2 :: r')) as [|tok ts] eqn:Ep;
-        [exfalso; eapply stmt_nonempty; eauto|].
-      cbn [parse_loop]. rewrite So, St.
-      assert (Sk : skip_empty_lines (TNewline :: pr_prog (s2 :: r')) = pr_prog (s2 :: r')).
-      { cbn [skip_empty_lines]. inversion Wr as [|? ? W2 Wr']; subst.
-        destruct (pr_stmt_first s2 W2) as (tok2 & r2 & E2 & Sk2).
-        destruct r' as [|s3 r''].
-        - cbn [pr_prog]. rewrite E2. apply Sk2.
-        - rewrite pr_prog_cons by discriminate. rewrite E2. cbn [app]. apply Sk2. }
-      rewrite Sk. rewrite (IH n (acc ++ [desugar_stmt s]) Wr); [|cbn in Hn |- *; lia].
-      cbn [map]. now rewrite <- app_assoc.
-Qed.
-
-Lemma length_pr_prog : forall l, Forall (fun s => wf_stmt s = true) l -> length l <= length (pr_prog l).
-Proof.
-  induction l as [|s r IH]; intro W; [cbn; lia|]. inversion W as [|? ? Ws Wr]; subst.
-  destruct (pr_stmt_first s Ws) as (tok & ts & E & _).
-  destruct r as [|s2 r']; [cbn [pr_prog]; rewrite E; cbn; lia|].
-  rewrite pr_prog_cons by discriminate. rewrite app_length, E. specialize (IH Wr). cbn in *. lia.
-Qed.
-
-(* round trip for whole programs *)
-Theorem parse_prog : forall l,
-    Forall (fun s => wf_stmt s = true) l -> parse (pr_prog l) = Ok (map desugar_stmt l) [].
-Proof.
-  intros l W. unfold parse.
-  assert (Sk : skip_empty_lines (pr_prog l) = pr_prog l).
-  { destruct l as [|s r]; [reflexivity|]. inversion W as [|? ? Ws Wr]; subst.
-    destruct (pr_stmt_first s Ws) as (tok & ts & E & Sk).
-    destruct r as [|s2 r']; [cbn [pr_prog]; rewrite E; apply Sk|].
-    rewrite pr_prog_cons by discriminate. rewrite E. cbn [app]. apply Sk. }
-  rewrite Sk. apply (parse_loop_prog l _ [] W). pose proof (length_pr_prog l W). lia.
-Qed.
-
-Lemma pr_prog_app : forall l1 l2, l1 <> [] -> l2 <> [] ->
-    pr_prog (l1 ++ l2) = pr_prog l1 ++ TNewline :: pr_prog l2.
-Proof.
-  induction l1 as [|s r IH]; intros l2 H1 H2; [now contradiction H1|].
-  destruct r as [|s2 r'].
-  - cbn [app]. now rewrite pr_prog_cons.
-  - change ((s :: s2 :: r') ++ l2) with (s :: ((s2 :: r') ++ l2)).
-    rewrite pr_prog_cons by (destruct l2; discriminate).
-    rewrite (pr_prog_cons s (s2 :: r')) by discriminate.
-    rewrite IH by (try discriminate; exact H2). now rewrite <- app_assoc.
+  intros. unfold pr_prog. rewrite pr_more_app. cbn [pr_more]. unfold pr_sep. cbn [fst snd].
+  rewrite repeat_app. rewrite <- !app_assoc. cbn [app].
+  do 3 f_equal. rewrite repeat_shift. cbn [app]. now rewrite <- !app_assoc.
 Qed.
 
 (* C07 premise (b) for canonical programs: joining with a newline concatenates *)
-Theorem parse_concat_canonical : forall l1 l2,
-    Forall (fun s => wf_stmt s = true) l1 -> Forall (fun s => wf_stmt s = true) l2 ->
-    parse (pr_prog l1 ++ TNewline :: pr_prog l2) = Ok (map desugar_stmt l1 ++ map desugar_stmt l2) [].
+Theorem parse_concat_canonical : forall lead1 i1 more1 trail1 lead2 i2 more2 trail2,
+    wf_item i1 = true -> wf_more more1 = true -> wf_item i2 = true -> wf_more more2 = true ->
+    parse (pr_prog lead1 i1 more1 trail1) = Ok (trees i1 more1) []
+    /\ parse (pr_prog lead2 i2 more2 trail2) = Ok (trees i2 more2) []
+    /\ parse (pr_prog lead1 i1 more1 trail1 ++ TNewline :: pr_prog lead2 i2 more2 trail2)
+       = Ok (trees i1 more1 ++ trees i2 more2) [].
 Proof.
-  intros l1 l2 W1 W2.
-  destruct l1 as [|a r1].
-  - (* empty first part: the leading newline is skipped *)
-    cbn [pr_prog app map]. unfold parse. cbn [skip_empty_lines].
-    pose proof (parse_prog l2 W2) as H. unfold parse in H.
-    assert (Sk : skip_empty_lines (pr_prog l2) = pr_prog l2).
-    { destruct l2 as [|s r]; [reflexivity|]. inversion W2 as [|? ? Ws Wr]; subst.
-      destruct (pr_stmt_first s Ws) as (tok & ts & E & Sk).
-      destruct r as [|s2 r']; [cbn [pr_prog]; rewrite E; apply Sk|].
-      rewrite pr_prog_cons by discriminate. rewrite E. cbn [app]. apply Sk. }
-    rewrite Sk in *. apply (parse_loop_prog l2 _ [] W2). pose proof (length_pr_prog l2 W2). cbn. lia.
-  - destruct l2 as [|b r2].
-    + (* empty second part: a trailing newline *)
-      change (pr_prog (@nil sst)) with (@nil token). change (map desugar_stmt []) with (@nil stmt).
-      rewrite app_nil_r.
-      assert (W : Forall (fun s => wf_stmt s = true) (a :: r1)) by exact W1.
-      unfold parse.
-      assert (Sk : skip_empty_lines (pr_prog (a :: r1) ++ [TNewline]) = pr_prog (a :: r1) ++ [TNewline]).
-      { inversion W as [|? ? Ws Wr]; subst. destruct (pr_stmt_first a Ws) as (tok & ts & E & Sk).
-        destruct r1 as [|s2 r']; [cbn [pr_prog]; rewrite E; apply Sk|].
-        rewrite pr_prog_cons by discriminate. rewrite E. cbn [app]. apply Sk. }
-      rewrite Sk.
-      (* run the loop over the program followed by a final newline *)
-      assert (G : forall l n acc, l <> [] -> Forall (fun s => wf_stmt s = true) l -> Datatypes.S (length l) < n ->
-                   parse_loop n acc (pr_prog l ++ [TNewline]) = Ok (acc ++ map desugar_stmt l) []).
-      { induction l as [|s r IH]; intros n acc Hne Wl Hn; [now contradiction Hne|].
-        destruct n as [|n]; [lia|]. inversion Wl as [|? ? Ws Wr]; subst.
-        destruct r as [|s2 r'].
-        - cbn [pr_prog]. destruct (statement_ext s [TNewline] Ws eq_refl) as [St So].
-          destruct (pr_stmt s ++ [TNewline]) as [|tok ts] eqn:Ep; [exfalso; eapply stmt_nonempty; eauto|].
-          cbn [parse_loop]. rewrite So, St. cbn [skip_empty_lines].
-          destruct n as [|n]; [cbn in Hn; lia|]. reflexivity.
-        - rewrite pr_prog_cons by discriminate. rewrite <- app_assoc. cbn [app].
-          destruct (statement_ext s (TNewline :: pr_prog (s2 :: r') ++ [TNewline]) Ws eq_refl) as [St So].
-          destruct (pr_stmt s ++ TNewline :: pr_prog (s2 :: r') ++ [TNewline]) as [|tok ts] eqn:Ep;
-            [exfalso; eapply stmt_nonempty; eauto|].
-          cbn [parse_loop]. rewrite So, St.
-          assert (Sk2 : skip_empty_lines (TNewline :: pr_prog (s2 :: r') ++ [TNewline])
-                        = pr_prog (s2 :: r') ++ [TNewline]).
-          { cbn [skip_empty_lines]. inversion Wr as [|? ? W2' Wr']; subst.
-            destruct (pr_stmt_first s2 W2') as (tok2 & t2 & E2 & Sk2).
-            destruct r' as [|s3 r'']; [cbn [pr_prog]; rewrite E2; apply Sk2|].
-            rewrite pr_prog_cons by discriminate. rewrite E2. cbn [app]. apply Sk2. }
-          rewrite Sk2. rewrite (IH n (acc ++ [desugar_stmt s])); [|discriminate|exact Wr|cbn in Hn |- *; lia].
-          cbn [map]. now rewrite <- app_assoc. }
-      apply (G (a :: r1) _ []); [discriminate | exact W|].
-      pose proof (length_pr_prog (a :: r1) W). rewrite app_length. cbn in *. lia.
-    + rewrite <- pr_prog_app by discriminate. rewrite <- map_app. apply parse_prog.
-      apply Forall_app. split; assumption.
+  intros lead1 i1 more1 trail1 lead2 i2 more2 trail2 W1 M1 W2 M2.
+  split; [now apply roundtrip_program|]. split; [now apply roundtrip_program|].
+  rewrite pr_prog_join. rewrite roundtrip_program.
+  - unfold trees. rewrite map_app. cbn [map snd app]. reflexivity.
+  - exact W1.
+  - unfold wf_more in *. rewrite forallb_app. cbn [forallb snd]. now rewrite M1, W2, M2.
 Qed.
 
-(* ... and for ALL single-line inputs of the fragment (every token list without
-   newline, trailing comma and `;` that parses is a canonical print: parse_sound) *)
+(* an input that only consists of blank lines *)
+Lemma parse_blank : forall n, parse (repeat TNewline n) = Ok [] [].
+Proof.
+  intro n. unfold parse. rewrite <- (app_nil_r (repeat TNewline n)). rewrite skip_repeat.
+  reflexivity.
+Qed.
+
+(* ... and for ALL single-line simple inputs (no newline, trailing comma, `;`; not a definition
+   keyword): every such token list that parses is a canonical print (parse_sound) *)
 Theorem parse_concat_single_line : forall ta tb la lb,
-    core ta = true -> no_separator ta = true -> core tb = true -> no_separator tb = true ->
+    core ta = true -> no_separator ta = true -> simple_start ta = true ->
+    core tb = true -> no_separator tb = true -> simple_start tb = true ->
     parse ta = Ok la [] -> parse tb = Ok lb [] ->
     parse (ta ++ TNewline :: tb) = Ok (la ++ lb) [].
 Proof.
-  intros ta tb la lb Ca Na Cb Nb Ha Hb.
-  destruct (parse_sound ta la Ca Na Ha) as [[-> ->]|(sa & Wa & <- & ->)];
-  destruct (parse_sound tb lb Cb Nb Hb) as [[-> ->]|(sb & Wb & <- & ->)].
-  - exact (parse_concat_canonical [] [] (Forall_nil _) (Forall_nil _)).
-  - exact (parse_concat_canonical [] [sb] (Forall_nil _) (Forall_cons _ Wb (Forall_nil _))).
-  - exact (parse_concat_canonical [sa] [] (Forall_cons _ Wa (Forall_nil _)) (Forall_nil _)).
-  - exact (parse_concat_canonical [sa] [sb] (Forall_cons _ Wa (Forall_nil _)) (Forall_cons _ Wb (Forall_nil _))).
+  intros ta tb la lb Ca Na Sa Cb Nb Sb Ha Hb.
+  destruct (parse_sound ta la Ca Na Sa Ha) as [[-> ->]|(sa & Wa & <- & ->)];
+  destruct (parse_sound tb lb Cb Nb Sb Hb) as [[-> ->]|(sb & Wb & <- & ->)].
+  - exact (parse_blank 1).
+  - change ([] ++ TNewline :: pr_stmt sb) with (pr_prog 1 (IStmt sb) [] 0 ++ []) || idtac.
+    assert (E : [] ++ TNewline :: pr_stmt sb = pr_prog 1 (IStmt sb) [] 0).
+    { unfold pr_prog. cbn. now rewrite app_nil_r. }
+    rewrite E. rewrite roundtrip_program; [reflexivity | exact Wb | reflexivity].
+  - assert (E : pr_stmt sa ++ [TNewline] = pr_prog 0 (IStmt sa) [] 1).
+    { unfold pr_prog. cbn. reflexivity. }
+    rewrite E. rewrite roundtrip_program; [reflexivity | exact Wa | reflexivity].
+  - assert (E1 : pr_stmt sa = pr_prog 0 (IStmt sa) [] 0) by (unfold pr_prog; cbn; now rewrite app_nil_r).
+    assert (E2 : pr_stmt sb = pr_prog 0 (IStmt sb) [] 0) by (unfold pr_prog; cbn; now rewrite app_nil_r).
+    rewrite E1, E2.
+    destruct (parse_concat_canonical 0 (IStmt sa) [] 0 0 (IStmt sb) [] 0 Wa eq_refl Wb eq_refl) as (_ & _ & H).
+    exact H.
 Qed.
